@@ -195,6 +195,7 @@ class SymInt:
     def __rmul__(self, o): return self._rbin(o, lambda a, b: a * b)
     def __neg__(self): return SymInt(-self.z)
     def __pos__(self): return self
+    def __abs__(self): return SymInt(z3.If(self.z < 0, -self.z, self.z))
 
     # Python floor semantics; z3 `div`/`mod` are Euclidean, identical for
     # positive divisors, which is all the code under test uses.
@@ -307,6 +308,7 @@ class SymReal:
     def __rmul__(self, o): return self._rbin(o, lambda a, b: a * b)
     def __neg__(self): return SymReal(-self.v, self.nan)
     def __pos__(self): return self
+    def __abs__(self): return SymReal(z3.If(self.v < 0, -self.v, self.v), self.nan)
 
     def __truediv__(self, o):
         o = SymReal.lift(o)
